@@ -277,8 +277,12 @@ def readEvalLoopN (fuel : Nat) (s : St) (executed : Bool) : List NLine → St ×
     let x : St × Res := match line with
       | .cmds l => execSeq (execN fuel) s l
       | .syntaxError => (s, handleParserError true false)
+    -- since 4afb140 a line without a command does not count as executed (see `readEvalLoop`)
+    let executed' := match line with
+      | .cmds l => executed || !l.isEmpty
+      | .syntaxError => true
     match x.2 with
-    | .continue_ => readEvalLoopN fuel x.1 true rest
+    | .continue_ => readEvalLoopN fuel x.1 executed' rest
     | r => (x.1, r)
 
 /-- `run_trap` for the EXIT condition + `run_exit_trap`'s `apply_result`; the action is a script of its own, read
